@@ -603,3 +603,15 @@ def c11_7(ctx: Ctx) -> RuleResult:
         i.rule = "C11.7"
     r.rule, r.title, r.floor = "C11.7", "violations of a back-transformed result are recomputed from the back-transformed differences", 4
     return r
+
+
+@rule(P)
+def c11_8(ctx: Ctx) -> RuleResult:
+    """Shared with C01.5."""
+    from .c01 import c01_5
+
+    r = c01_5(ctx)
+    for i in r.instances:
+        i.rule = "C11.8"
+    r.rule, r.title = "C11.8", "estimators are positively homogeneous (no absolute thresholds): scaling the per-realization values scales the estimate, so back-transformed values equal untransformed ones"
+    return r
